@@ -654,6 +654,18 @@ func c07Differential(c *core.Ctx) {
 				}
 			}
 		}
+		// two things wrong at once (whatever the order of the issuer's checks, no response)
+		{
+			unreg := string(alnum(r, 9)) + ".unregistered"
+			unrelated := newT3Signer(ScalarBytes(r, elliptic.P384().Params().N, 48), ScalarBytes(r, elliptic.P384().Params().N, 48))
+			judge(w.build(r, c07Opts{origin: unreg, signWith: unrelated}).enc, "double-fault:unregistered+foreign-signature")
+			judge(w.build(r, c07Opts{origin: unreg, sealTo: w.nkO}).enc, "double-fault:unregistered+foreign-name-key")
+			judge(w.build(r, c07Opts{origin: origin, sealTo: w.nkO, signWith: unrelated}).enc, "double-fault:foreign-name-key+foreign-signature")
+			judge(w.build(r, c07Opts{origin: unreg, innerPlain: full[:len(full)-1]}).enc, "double-fault:unregistered+inner-truncated")
+			m := w.build(r, c07Opts{origin: unreg}).enc
+			judge(flipBit(m, 8*(len(m)-1)), "double-fault:unregistered+signature-bit")
+			judge(w.build(r, c07Opts{origin: origin, requestKey: append([]byte{2}, bytes.Repeat([]byte{0xff}, 48)...), signWith: unrelated}).enc, "double-fault:malformed-request-key+foreign-signature")
+		}
 		// truncations / extensions at seeded positions
 		judge(a.enc[:r.IntN(len(a.enc))], "truncated")
 		judge(append(clone(a.enc), r.Bytes(1+r.IntN(5))...), "extended")
